@@ -17,6 +17,7 @@ import Spade.Spec
 import Spade.Examples
 import Spade.Proofs.FlagInv
 import Spade.Proofs.ConstrainInv
+import Spade.Proofs.HandleArith
 namespace Spade
 open AState
 
@@ -169,4 +170,32 @@ example : ((emptyM.insertAllM [(⟨0,0⟩,0,0), (⟨4,0⟩,1,0), (⟨6,6⟩,2,0)
       (t.2, t.1.isFlag 4, (t.1.edgeFromNeighbors 1 3).isSome)) = some (true, false, true) := by
   decide +kernel
 
+
+/-! ### Code level (T0): where the constraint flag of an edge is stored
+
+`DirectedEdgeHandle::is_constraint_edge` reads `edges[as_undirected(e)].undirected_data.0`
+(`Spade.Generated.flagEntryOfDirected`, translated from `handle_impls.rs` / `dcel.rs` / `cdt.rs`). -/
+section CodeFlags
+open Spade.Generated
+
+/-- both directions of an edge read the same flag: "constraint edges are undirected" holds by construction -/
+theorem C04_code_flag_symmetric (e : Nat) : flagEntryOfDirected (hRev e) = flagEntryOfDirected e := by
+  simp only [flagEntryOfDirected, hAsUndirected_eq, hRev_eq]; split <;> omega
+
+/-- two directed handles share a flag only if they are the same edge or each other's reversal -/
+theorem C04_code_flag_shared_iff (e e' : Nat) :
+    flagEntryOfDirected e = flagEntryOfDirected e' ↔ (e' = e ∨ e' = hRev e) := by
+  simp only [flagEntryOfDirected, hAsUndirected_eq, hRev_eq]; split <;> omega
+
+/-- the model's flag lookup (`St.isFlag`, entry `e / 2`) reads the entry the code reads -/
+theorem C04_code_flag_is_model (s : St) (e : Nat) :
+    s.isFlag e = s.flag.getD (flagEntryOfDirected e) false := by
+  simp only [St.isFlag, flagEntryOfDirected, hAsUndirected_eq]
+
+/-- hence in the model, too, a flag is seen from both directions (for every state, not only valid ones) -/
+theorem C04_model_flag_symmetric (s : St) (e : Nat) : s.isFlag (e ^^^ 1) = s.isFlag e := by
+  rw [C04_code_flag_is_model, C04_code_flag_is_model, ← C04_code_flag_symmetric e]; rfl
+
+example : exCdt.isFlag 0 = exCdt.isFlag 1 ∧ flagEntryOfDirected 5 = 2 := by decide
+end CodeFlags
 end Spade
